@@ -7,22 +7,6 @@ From Verif Require Import Json Outcome Match PatIndex State StateSpec CascadeSpe
 
 (** * Definitions *)
 
-(** The cron add hook (installed iff [hooks]) rejects this prepared fact.
-    ([add_hook_err] only looks at [st_hooks].) *)
-Definition hook_rejects (hooks : bool) (fact : json) : bool :=
-  match add_hook_err (empty_state Linear hooks) fact with Some _ => true | None => false end.
-
-(** The operation is not an add whose prepared fact the hook rejects. *)
-Definition op_hook_ok (hooks : bool) (o : sop * Z) : bool :=
-  match o with
-  | (SAdd given x fresh aux, now) =>
-      match prepare_fact given x now fresh aux with
-      | Ok (_, fact) => negb (hook_rejects hooks fact)
-      | _ => true
-      end
-  | _ => true
-  end.
-
 (** The operation is an add that prepares (writes, if it gets that far) [id]. *)
 Definition writes_id (id : string) (o : sop * Z) : bool :=
   match o with
@@ -70,12 +54,23 @@ Definition rule_body_of (k : skind) (fact body : json) : Prop :=
 Definition store_mirrors_memory_statement : Prop :=
   forall k ops, let s := reachable k false None ops in st_store s = st_facts s.
 
-(** ... and with the hooks installed, provided the (linear) history contains
-    no add that the hook rejects. *)
+(** ... and with the hooks installed, whatever the hooks reject (both kinds ask
+    the hook before anything is written). *)
 Definition store_mirrors_memory_hooks_statement : Prop :=
   forall k hooks ops,
-    (k = Linear -> forallb (op_hook_ok hooks) ops = true) ->
     let s := reachable k hooks None ops in st_store s = st_facts s.
+
+(** An add that the add hook rejects reports the hook's error and leaves the
+    state - memory, indexes, storage, even the count of storage calls - exactly
+    as it was, in both state kinds.  (The indexed state can report the error of
+    the rule extraction, which comes first, instead.) *)
+Definition hook_reject_leaves_no_residue_statement : Prop :=
+  forall s g x now fr aux id fact e,
+    prepare_fact g x now fr aux = Ok (id, fact) ->
+    add_hook_err s fact = Some e ->
+    fst (st_add s g x now fr aux) = s /\
+    (exists e', snd (st_add s g x now fr aux) = Err e') /\
+    (st_kind s = Linear -> snd (st_add s g x now fr aux) = Err e).
 
 (** well-formedness (sorted association lists) in every reachable state, both
     kinds, any failure *)
@@ -115,7 +110,6 @@ Definition reload_equiv_reachable_statement : Prop :=
 
 Definition reload_equiv_reachable_hooks_statement : Prop :=
   forall k hooks ops now,
-    (k = Linear -> forallb (op_hook_ok hooks) ops = true) ->
     let s := reachable k hooks None ops in
     no_expired s now ->
     exists s', st_load k hooks (st_store s) now = (s', Ok tt) /\
